@@ -4,7 +4,7 @@
    [ref_args g c t] = tinputs t ++ map c (pred g t): static inputs, then predecessor results in the
    order of the workflow's predecessor list;  [built g]: g is reachable by WorkflowBuilder operations. *)
 From Coq Require Import List Bool PArith Arith Permutation.
-From PV Require Import Base.PyData C17.Model C17.ProofsSched C17.ProofsDask C17.ProofsGraph C17.ProofsBuilder C17.Proofs C17.ProofsPrepare C17.ProofsDeclared C17.ProofsOptimize C17.ProofsQueries C17.ProofsFuse C17.ProofsOptimizeAll C17.ProofsFinal.
+From PV Require Import Base.PyData C17.Model C17.ProofsSched C17.ProofsDask C17.ProofsGraph C17.ProofsBuilder C17.Proofs C17.ProofsPrepare C17.ProofsDeclared C17.ProofsOptimize C17.ProofsQueries C17.ProofsFuse C17.ProofsOptimizeAll C17.ProofsFuseCalls C17.ProofsFinal.
 Import ListNotations.
 
 (* The sequential reference evaluation IS what the property describes: in any order in which it
@@ -400,3 +400,25 @@ Theorem optimized_workflow_sound :
     inline_only steps = true -> avoids results steps = true -> snd (fuse_steps d steps) = true ->
     exists v, ref_get apply g = ROk v /\ dask_get_dist apply (fst (fuse_steps (scatter_dsk d) steps)) results = ROk v.
 Proof. exact optimized_workflow_sound_stmt. Qed.
+
+(* ---- exactly-once through the graph optimisation ------------------------------------------------------------ *)
+(* inline_preserves_calls.  For every duplicate-free acyclic dict and every legal inline step: the run that answers
+   a surviving key r makes, as a multiset, exactly the calls the run on the original dict makes (the inlined task
+   is evaluated once, inside its only dependent). *)
+Theorem inline_preserves_calls :
+  forall (apply : positive -> list sval -> sval) (d : dsk) (c : positive),
+    NoDup (dkeys d) -> length (dask_sched d) = length d -> fuse_step_ok d (FInline c) = true ->
+    forall r, r <> c -> In r (dkeys d) ->
+      Permutation (snd (dask_get_log apply (fuse_step d (FInline c)) r)) (snd (dask_get_log apply d r)).
+Proof. exact inline_preserves_calls_stmt. Qed.
+
+(* optimize_preserves_calls.  The whole of optimize_task_graph_for_dask_distributed (scatter, then any legal
+   sequence of inline steps): the distributed scheduler makes on the optimized dict exactly the multiset of calls
+   the local scheduler makes on the original dict - with exactly_once: every task function once, with its
+   reference arguments, nothing else. *)
+Theorem optimize_preserves_calls :
+  forall (apply : positive -> list sval -> sval) (d : dsk) (steps : list fstep) (r : positive),
+    NoDup (dkeys d) -> length (dask_sched d) = length d -> dsk_no_fut d = true -> In r (dkeys d) ->
+    inline_only steps = true -> avoids r steps = true -> snd (fuse_steps d steps) = true ->
+    Permutation (snd (dask_get_dist_log apply (fst (fuse_steps (scatter_dsk d) steps)) r)) (snd (dask_get_log apply d r)).
+Proof. exact optimize_preserves_calls_stmt. Qed.
